@@ -116,6 +116,12 @@ def r_retrieve_tree(repo, rep, R, what):
         if len(kinds.get(k, [])) == 0:
             raise AnalysisError('%s: retrieve_tree: no %s path found (kinds: %s)' % (REL, k, {a: len(b) for a, b in kinds.items()}))
         if len(kinds[k]) > 1:
+            # paths that differ only in which tests they passed, not in what they do, are one way of rebuilding
+            sig = {}
+            for st_, out_ in kinds[k]:
+                sig.setdefault((tuple(tuple(x for x in e[:-1]) for e in st_.events if e[0] not in ('branch',)), st_.ret, out_), (st_, out_))
+            kinds[k] = list(sig.values())
+        if len(kinds[k]) > 1:
             rep.violation(R, '%s:%s retrieve_tree' % (REL, rt.fn.lineno), 'retrieve_tree:%s:several-paths' % k,
                           'retrieve_tree reconstructs a %s node along %d different paths (extra conditions decide how a node is rebuilt)' % (k, len(kinds[k])))
             kinds[k] = kinds[k][:1]
@@ -476,7 +482,7 @@ def r_sentence_loop(repo, rep, R, table_info):
         ps_call = [e[1] for e in seg if e[0] == 'call' and e[1][1] == N('parse_sentence')]
         status_fail = any(c[0] == 'cmp' and c[1] in ('>', '!=') and c[3] == C(0) and pol for c, pol, _ in st.conds
                           if c[0] == 'cmp' and ps_call and c[2] == ps_call[0])
-        too_long = any('max_length' in show(c) and pol for c, pol, _ in st.conds)
+        too_long = _too_long(st)
         for a in apps:
             v = a[2][0]
             if status_fail or too_long:
@@ -531,6 +537,17 @@ def r_sentence_loop(repo, rep, R, table_info):
     return {'paths': len(entered)}
 
 
+def _too_long(st):
+    """the path has established  len(tokens) > <the max_length option>"""
+    for c, pol, _ in st.conds:
+        f = logic.formula(c)
+        if not pol:
+            f = logic.neg(f)
+        if f[0] == 'atom' and f[1][0] == 'lt' and 'max_length' in show(f[1][1]) and f[1][2][0] == 'call' and f[1][2][1] == N('len'):
+            return True
+    return False
+
+
 NEG_INF = {('unop', '-', ('call', N('float'), (C('inf'),), ())), ('call', N('float'), (C('-inf'),), ()),
            ('unop', '-', A(N('math'), 'inf')), ('unop', '-', A(N('numpy'), 'inf')), ('unop', '-', A(N('np'), 'inf'))}
 
@@ -570,7 +587,7 @@ def failure_values(repo):
         ps_call = [e[1] for e in st.events if e[0] == 'call' and e[1][1] == N('parse_sentence')]
         status_fail = any(c[0] == 'cmp' and c[1] in ('>', '!=') and c[3] == C(0) and pol and ps_call and c[2] == ps_call[0]
                           for c, pol, _ in st.conds)
-        too_long = any('max_length' in show(c) and pol for c, pol, _ in st.conds)
+        too_long = _too_long(st)
         if status_fail or too_long:
             out.extend((e[1][2][0], e[-1]) for e in st.events if e[0] == 'call' and is_method_call(e[1], 'append') and e[1][1][1] == acc)
     return run, out
